@@ -83,6 +83,23 @@ impl JoinChannels {
     }
 }
 
+#[cfg(feature = "verif-hooks")]
+impl JoinChannels {
+    #[allow(clippy::type_complexity)]
+    pub(crate) fn verif_walk(&self) -> (usize, usize, Option<u8>, u8, [u8; 9], Option<u8>) {
+        let mut avail = [0u8; 9];
+        avail.copy_from_slice(self.available_channels.data.as_ref());
+        (
+            self.max_retries,
+            self.num_retries,
+            self.preferred_subband.map(|s| s as usize as u8),
+            self.previous_channel,
+            avail,
+            self.available_channels.previous,
+        )
+    }
+}
+
 #[derive(Clone, Default)]
 #[cfg_attr(feature = "serde", derive(serde::Serialize, serde::Deserialize))]
 pub(crate) struct AvailableChannels {
